@@ -136,7 +136,7 @@ Proof. unfold env_equiv. now rewrite env_sub_refl_aux. Qed.
 
 Theorem oracle_sound_lemma cls s env : oracle cls s env (answer_of_outcome (run cls s env)) = 0%N.
 Proof.
-  pose proof (run_correct cls s env) as H. unfold oracle.
+  pose proof (run_correct cls s env) as H. unfold oracle, oracle_for.
   destruct (run cls s env) as [z e'|c l e'| |]; cbn [answer_of_outcome]; try contradiction.
   - rewrite H. rewrite Z.eqb_refl, env_equiv_refl. reflexivity.
   - rewrite H. reflexivity.
